@@ -111,10 +111,10 @@ func DrainCallbacks() []CbRecord {
 // exchange-rate source for prices that are not in the base denom
 //
 // The service keeper asks the module service registered under the name "oracle" for "<denom>-<base>" rates.
-// The oracle keeper's own implementation compares the feed value's timestamp with the *host clock*
-// (time.Since, finding F7 of C11) and therefore never answers at the fixed block times of the harness, so
-// the multi-denom switch substitutes a table-driven rate source through the keeper's public
-// SetModuleService. The table belongs to the running case (reset by the machine constructor).
+// The oracle keeper's own implementation answers from a running feed with a fresh value; instead of driving
+// feeds, the multi-denom switch substitutes a table-driven rate source through the keeper's public
+// SetModuleService (the ModuleService value is the service keeper's whole interface to that source).
+// The table belongs to the running case (reset by the machine constructor).
 
 var (
 	rateOnce sync.Once
@@ -380,7 +380,9 @@ func (s *Svc) UpdateParams(p servicetypes.Params) chain.Result {
 func (s *Svc) Params() servicetypes.Params { return s.k().K.Service.GetParams(s.C.Ctx) }
 
 // NextBlock ends the current block and begins the next one dt later.
-func (s *Svc) NextBlock(dt time.Duration) (end, begin chain.HookResult) { return s.C.NextBlock(dt, nil) }
+func (s *Svc) NextBlock(dt time.Duration) (end, begin chain.HookResult) {
+	return s.C.NextBlock(dt, nil)
+}
 
 // ---------------------------------------------------------------------------------------------
 // observation
